@@ -4,7 +4,7 @@
 From Coq Require Import ZArith List Bool NArith.
 Import ListNotations.
 Require Import PV.Core.Obj PV.Core.Val PV.Core.Cls PV.Core.Member PV.Core.CanAssignK PV.Core.CanAssign PV.Core.C04Run.
-Require Import PV.Proofs.C04Laws PV.Proofs.C04Mono PV.Proofs.C04Refl PV.Proofs.C04Simple PV.Proofs.C04Witness PV.Gen.ClassTable.
+Require Import PV.Proofs.C04Laws PV.Proofs.C04Mono PV.Proofs.C04Refl PV.Proofs.C04Simple PV.Proofs.C04Sound PV.Proofs.C04Witness PV.Gen.ClassTable.
 
 (* a union is accepted exactly when each member is (every class table, fuel, mode) *)
 Theorem C04_union_right_iff_all : forall ct n e A bs,
@@ -108,6 +108,43 @@ Theorem C04_simple_reflexive_table : forall n A,
   can_assign_f table (S (S (S n))) false A A = true.
 Proof. exact simple_reflexive_table. Qed.
 Print Assumptions C04_simple_reflexive_table.
+
+(* ---- membership-soundness beyond the nominal core.  strict_f (Core/CanAssign.v) derives
+   acceptances with the sound rules only (no bare-generic / variadic-tuple / NewType leniency,
+   scalar literals only); it is a decidable guard that the harness evaluates on every pair. ---- *)
+(* a strict derivation is an acceptance of the full model ... *)
+Theorem C04_strict_implies_accept : forall ct n A B,
+  strict_f ct n A B = true -> can_assign_f ct n false A B = true.
+Proof. exact strict_implies_accept. Qed.
+Print Assumptions C04_strict_implies_accept.
+
+(* ... and is sound for membership: unions and Annotated on both sides, classes, scalar literals,
+   type[C], element containers and mappings through the generic-bases table, fixed tuples;
+   by induction on the derivation, for every class table satisfying four facts *)
+Theorem C04_strict_sound : forall ct, sound_facts ct -> forall n A B,
+  strict_f ct n A B = true -> forall o, member ct B o = true -> member ct A o = true.
+Proof. exact strict_sound. Qed.
+Print Assumptions C04_strict_sound.
+
+(* the four facts hold on the table dumped from the implementation, for all class codes *)
+Theorem C04_table_sound_facts : sound_facts table.
+Proof. exact table_sound_facts. Qed.
+Print Assumptions C04_table_sound_facts.
+
+Theorem C04_strict_sound_table : forall n A B o,
+  strict_f table n A B = true -> member table B o = true -> member table A o = true.
+Proof. exact strict_sound_table. Qed.
+Print Assumptions C04_strict_sound_table.
+
+Example C04_strict_examples :
+  strict_f table 6 (VNode (TGeneric c_Sequence) [VUnion [t_cls c_float; t_none]])
+                   (VNode (TGeneric c_list) [VUnion [t_cls c_bool; t_none]]) = true /\
+  strict_f table 6 (VNode (TGeneric c_Mapping) [t_cls c_str; VNode (TSeq c_tuple [false; false]) [VUnion [t_cls c_int; t_cls 40]; t_cls c_int; t_cls 40]])
+                   (VNode (TGeneric c_dict) [t_cls c_str; VNode (TSeq c_tuple [false; false]) [VUnion [t_cls c_bool; t_cls 41]; t_cls c_bool; t_cls 41]]) = true /\
+  strict_f table 6 (VNode (TSubclass false) [t_cls 40]) (VNode (TSubclass false) [t_cls 41]) = true /\
+  strict_f table 6 (VNode (TGeneric c_list) [t_cls c_int]) (t_cls c_list) = false.
+Proof. exact strict_examples. Qed.
+Print Assumptions C04_strict_examples.
 
 (* obligations over the table dumped from the implementation *)
 Theorem C04_table_nominal_refl : forallb (fun c => tassign table c c) classes = true.
